@@ -147,6 +147,10 @@ def run_case(case):
         exactly one automatic snapshot carrying that boundary's steps_done / t, and nothing else may have."""
         if not auto or not use_hb:
             return
+        bt0 = boundaries[auto['first_boundary']:]
+        if any((not (b[1] == b[1])) for b in bt0) or any(bt0[i + 1][1] < bt0[i][1] for i in range(len(bt0) - 1)) or not (sim.dt > 0):
+            counters['cadence_skipped_time_not_forward'] = counters.get('cadence_skipped_time_not_forward', 0) + 1
+            return          # NaN / backward time (e.g. IAS15 fed coinciding particles): the forward schedule is not defined
         autos = [e for e in expected[auto['first_index']:] if e['kind'] == 'auto']
         got = [(struct.unpack('<Q', e['canon']['steps_done'])[0], struct.unpack('<d', e['canon']['t'])[0]) for e in autos]
         bt = boundaries[auto['first_boundary']:]
@@ -366,11 +370,25 @@ def main(tier, seed):
         pre = sh if variant != 'asan' else B.asan_runtime() + ' ' + sh
         res = core.run_cases('checks.c06_archive_history', variant, cases, timeout_case=300, extra_env={'LD_PRELOAD': pre, 'VERIF_LIBREBOUND': os.path.join(B.build(variant), 'librebound' + B.EXT_SUFFIX)})
         for c, r in zip(cases, res):
+            if r and 'crash' in r:
+                # C06 is about the archive. A sanitizer report or abort whose stack is inside the archive code is a violation;
+                # deaths elsewhere (e.g. an integrator fed an unphysical state by a random history) are counted, not judged here.
+                err = r['crash'].get('stderr') or ''
+                import re
+                frames = re.findall(r'#\d+ 0x[0-9a-f]+ in \w+ (/\S+?):\d+', err)[:6]
+                in_archive = any(f.endswith(('simulationarchive.c', 'binarydiff.c', 'input.c', 'output.c', 'fmemopen.c')) for f in frames)
+                if not in_archive:
+                    V.evaluations += 1
+                    V.count('process_deaths_outside_archive_code' if frames else 'process_deaths_unattributed')
+                    continue
             V.absorb(c, r, crash_mech)
     inc = []
     for k in ('snapshots_auto', 'snapshots_manual', 'readbacks', 'arrays_shrunk', 'arrays_grown', 'fields_vanished', 'fields_reappeared', 'cadence_checked_step', 'cadence_checked_interval'):
         if V.counters.get(k, 0) == 0:
             inc.append('monitor counter %s is zero' % k)
+    dead = V.counters.get('process_deaths_outside_archive_code', 0) + V.counters.get('process_deaths_unattributed', 0)
+    if dead > max(3, V.evaluations // 100):
+        inc.append('%d histories ended in a process death outside the archive code' % dead)
     return V.finish(
         rule="random operation histories on one archive; expected snapshot = live state recorded by a function-boundary shim at the moment of every manual/automatic snapshot; "
              "read back with an independent byte parser and with the real reader (nblobs, t[k] bitwise, every snapshot in random load order) plus cadence of automatic snapshots; "
